@@ -48,7 +48,7 @@ pub fn format_tokens(line: &str, style: &ColumnStyle, widths: [usize;3]) -> Stri
             }
         },
         _ => {
-            for col in cols {
+            for (i,col) in cols.iter().enumerate() {
                 let mut prepadding = 0;
                 if let Some(c) = col.chars().next() {
                     if c==';' {
@@ -61,8 +61,13 @@ pub fn format_tokens(line: &str, style: &ColumnStyle, widths: [usize;3]) -> Stri
                     i if i<3 => widths[i],
                     _ => 1
                 };
+                // one blank can be part of an operand (file names, macro arguments), so a comment is set off by two
+                let min_padding = match cols.get(i+1) {
+                    Some(next) if next.starts_with(';') => 2,
+                    _ => 1
+                };
                 let padding = match w as i32 - col.len() as i32 {
-                    x if x<1 => 1,
+                    x if x<min_padding => min_padding as usize,
                     x => x as usize
                 };
                 ans += &" ".repeat(prepadding);
